@@ -67,10 +67,16 @@ def r10a(ck, fb):
             ck.require(b.name in EXC, 'R10a', 'other-mutator:%s' % b.name, b.where(), '%s changes stored values without notifying and is not a listed exception' % b.name, EXC.get(b.name, ''))
     dc = fb.bodies.get(CA + 'del_config')
     if dc:
-        rk = util.mut_calls_on_field(dc, 'subscriber', re.escape(SB + 'remove_config_key') + '$')
+        rk = util.mut_calls_on_field(dc, 'subscriber', re.escape(SB + 'remove_config_key') + '$', deep=1)
         sn = util.mut_calls_on_field(dc, 'subscriber', re.escape(SB + 'notify') + '$', deep=1)
-        ck.require(bool(rk) and bool(sn) and all(cfg.dominates_blocks(dc, {x.bb for x in sn}, r.bb) for r in rk), 'R10a', 'del_config:notify-before-forget', dc.where(),
+        # if subscribers are forgotten at all, then only after they were told about the removal
+        ck.require(bool(sn) and all(cfg.dominates_blocks(dc, {x.bb for x in sn}, r.bb) for r in rk), 'R10a', 'del_config:notify-before-forget', dc.where(),
                    'subscribers of a removed key are forgotten before they are notified')
+        # ... and the property needs more: "notified of every later change (publish or remove) of every key it listens to" - a subscription must
+        # survive the removal of the key, otherwise subscribe, remove, publish leaves the publish unreported
+        ck.require(not rk, 'R10a', 'del_config:keeps-subscribers', rk[0].where() if rk else dc.where(),
+                   'del_config drops the gRPC subscriptions of the removed key (Subscriber::remove_config_key): a client that subscribed, saw the key '
+                   'removed and keeps its subscription is not told when the key is published again', 'subscriptions survive a remove')
 
 
 def r10b(ck, fb):
